@@ -42,12 +42,16 @@ LOOP = "arbitrary::unstructured::Unstructured::<'a>::arbitrary_loop"
 ROOT_TYPES = ["ctap1::Request<", "ctap2::Request<", "authenticator::Request<"]
 
 
-def const_or_lit(A, n):
-    """('lit', v) | ('param', path) | None for an expression that is a literal or a const generic parameter"""
+def const_or_lit(A, n, F=None):
+    """('lit', v) | ('param', path) | None for an expression that is a literal, a named integer constant or a const generic parameter"""
     n = A.subst(n)
     v = H.lit(n)
     if isinstance(v, int) and not isinstance(v, bool):
         return ("lit", v)
+    if F is not None and n.get("k") == "path" and (n["res"].get("rk") or "").startswith(("Const", "AssocConst")) and "ConstParam" not in n["res"].get("rk", ""):
+        cv = F.const_value(n["res"].get("path") or "")
+        if isinstance(cv, int) and not isinstance(cv, bool):
+            return ("lit", cv)
     if n.get("k") == "path" and "ConstParam" in n["res"].get("rk", ""):
         return ("param", n["res"]["path"].split("::")[-1])
     return None
@@ -94,7 +98,7 @@ def discharge_unwrap(F, fn, A, pm, node, inst):
         targs = recv.get("targs") or ["", ""]
         src = untry(src_node)
         if src is not None and src.get("callee") == BYTES and array_len(targs[1]):
-            k = const_or_lit(A, src["args"][0])
+            k = const_or_lit(A, src["args"][0], F)
             kk = array_len(targs[1])
             same = k is not None and ((k[0] == "lit" and str(k[1]) == kk) or (k[0] == "param" and k[1] == kk))
             if same:
